@@ -557,7 +557,8 @@ class HandlerGen:
     yields a timeout (None or a number), finishes (StopAsyncIteration) or fails with any BaseException.
     Ghost: ghost.delivered counts the actions handed to it (asend/athrow), self.closed counts the aclose() calls that actually
     closed a live generator (GeneratorExit thrown into its body), ghost.live_gens counts the generators created and not
-    yet finished, ghost.last_timeout is the timeout most recently yielded by a handler generator."""
+    yet finished, ghost.last_timeout is the timeout most recently yielded by a handler generator, ghost.handler_failures counts
+    the times a handler generator itself raised (as opposed to exceptions raised by the server's own code)."""
 
     def __init__(self):
         self.finished = False
@@ -577,6 +578,7 @@ class HandlerGen:
             raise StopAsyncIteration
         if k == 1:
             self._finish()
+            ghost.handler_failures = ghost.handler_failures + 1   # the handler generator itself raised
             raise_any(BaseException, StopAsyncIteration, GeneratorExit)
         t = nondet("opt[xreal]")
         ghost.last_timeout = t   # the timeout this generator asks for its next request
@@ -599,6 +601,7 @@ class HandlerGen:
         self.closed = self.closed + 1
         self._finish()
         if nondet_bool():
+            ghost.handler_failures = ghost.handler_failures + 1
             raise_any(Exception, StopAsyncIteration)
         return None
 
